@@ -126,6 +126,11 @@ fn main() {
             let code = mon::replay(&j);
             std::process::exit(code);
         }
+        "corpus" => {
+            let dir = args.get(2).cloned().unwrap_or_default();
+            let seed: u64 = args.get(3).and_then(|s| s.parse().ok()).unwrap_or(1);
+            std::process::exit(mon::c01::write_corpus(&dir, seed));
+        }
         "digest17" => {
             std::process::exit(mon::c17::digest_main(&args[2..]));
         }
